@@ -91,7 +91,9 @@ static int build_mesh(REF_GRID *grid_ptr, REF_DBL **scalar_ptr, int *nn_ptr) {
   scalar = (REF_DBL *)malloc(sizeof(REF_DBL) * (size_t)nn);
   for (i = 0; i < nn; i++) {
     REF_INT node;
-    if (REF_SUCCESS != ref_node_add(ref_node, i, &node) || node != i) exit(5);
+    /* global id != local slot (strictly increasing map, so every order the C derives from global ids is the order of the
+       model, which identifies a vertex with its index): a local/global mix-up in the k-exact driver is then visible */
+    if (REF_SUCCESS != ref_node_add(ref_node, (REF_GLOB)(3 * i + 5), &node) || node != i) exit(5);
     for (c = 0; c < 3; c++) ref_node_xyz(ref_node, c, node) = h_f(h_w[3 + 3 * i + c]);
     for (c = 3; c < REF_NODE_REAL_PER; c++) ref_node_real(ref_node, c, node) = 0.0;
     scalar[i] = h_f(h_w[3 + 3 * (int)nn + i]);
